@@ -44,8 +44,12 @@ type C16Module struct {
 	OnDevice bool   `json:"on_device"`
 	// SkipActive: a misbehaving owner module that sends messages without ever
 	// activating the device module; the device must refuse them.
-	SkipActive bool       `json:"skip_active,omitempty"`
-	Rounds     []C16Round `json:"rounds"`
+	SkipActive bool `json:"skip_active,omitempty"`
+	// BlockWhenDone: the owner module reports completion and "more to send" in
+	// the same call (the interface allows it; the responder has to drop the
+	// block, otherwise the device is told to continue with nobody to talk to).
+	BlockWhenDone bool       `json:"block_when_done,omitempty"`
+	Rounds        []C16Round `json:"rounds"`
 }
 
 type C16Plan struct {
@@ -141,7 +145,7 @@ func (p *c16) Plan(tier string, seed uint64, i int) any {
 	}
 	nm := r.IntN(4)
 	for m := 0; m < nm; m++ {
-		mod := C16Module{Name: fmt.Sprintf("fdo.sim%d%s", m, strings.Repeat("x", r.IntN(12))), OnDevice: r.IntN(5) != 0}
+		mod := C16Module{Name: fmt.Sprintf("fdo.sim%d%s", m, strings.Repeat("x", r.IntN(12))), OnDevice: r.IntN(5) != 0, BlockWhenDone: r.IntN(4) == 0}
 		for rd, nr := 0, 1+r.IntN(3); rd < nr; rd++ {
 			var round C16Round
 			for k, n := 0, r.IntN(4); k < n; k++ {
@@ -327,7 +331,7 @@ func (m *c16Owner) ProduceInfo(ctx context.Context, pr *serviceinfo.Producer) (b
 	for {
 		if m.round >= len(m.spec.Rounds) {
 			m.log.add("owner %s done", m.spec.Name)
-			return false, true, nil
+			return m.spec.BlockWhenDone, true, nil
 		}
 		rd := m.spec.Rounds[m.round]
 		if !m.queued {
@@ -375,7 +379,8 @@ func (m *c16Owner) ProduceInfo(ctx context.Context, pr *serviceinfo.Producer) (b
 		m.idle, m.repliesOK, m.queued = 0, m.repliesOK-len(rd.Replies), false
 		m.round++
 		if wrote {
-			return false, m.round >= len(m.spec.Rounds), nil
+			done := m.round >= len(m.spec.Rounds)
+			return done && m.spec.BlockWhenDone, done, nil
 		}
 	}
 }
